@@ -454,8 +454,10 @@ class Gen:
         return lines
 
 
-def case_init(tag, pad=3, funcs=0):
-    """failing expression in a global variable initialiser (runs in __INIT while the object is loaded)"""
+def case_init(tag, pad=3, funcs=0, sameline=False):
+    """failing expression in a global variable initialiser (runs in __INIT while the object is loaded); `sameline`: the
+    initialiser is on the line on which the last function in front of it ends (the line counters of the two code
+    blocks then hold the SAME value)"""
     d = "/c18/%s" % tag
     m = Src("%s/m.c" % d)
     m.text("int x_;\nint z_;\nvoid set_oid(string s) {}\n")
@@ -463,6 +465,8 @@ def case_init(tag, pad=3, funcs=0):
         m.text("int h%d(int k) {\n  x_ = k;\n  return x_ + %d;\n}\n" % (i, i))
     m.pad("n", pad)
     ln = m.line
+    if sameline:
+        m.text("int hs(int k) { x_ = k; return x_ + 1; } ")
     m.text("mixed g_ = 10 / z_;\nint go() { return 1; }\n")
     p, o = "%s/m.c" % d.lstrip("/"), "%s/m" % d
     exp = "expect kind=plain phase=load file=%s lines=%d-%d program=%s object=%s trace=#global_init#@%s@%s@%s@%d-%d" % (
@@ -981,7 +985,7 @@ class C18(Prop):
                 continue
             if rng.chance(1, 20):
                 out.append(E.Case("g%d" % i, case_init_pair(tag, pad=rng.range(0, 300)) if rng.chance(1, 3) else
-                                  case_init(tag, pad=rng.range(0, 300), funcs=rng.range(0, 4)),
+                                  case_init(tag, pad=rng.range(0, 300), funcs=rng.range(0, 4), sameline=rng.chance(1, 3)),
                                   {"fail": "init", "origin": "generated"}))
                 continue
             big = rng.chance(1, 12) if tier != "thorough" else rng.chance(1, 10)
@@ -1088,6 +1092,8 @@ class C18(Prop):
            **g.meta)
         mk("init", case_init("b_init"), fail="init")
         mk("init-after-functions", case_init("b_init2", pad=40, funcs=3), fail="init")
+        mk("init-same-line-as-function", case_init("b_init5", pad=4, funcs=1, sameline=True), fail="init")
+        mk("init-same-line-only", case_init("b_init6", pad=0, funcs=0, sameline=True), fail="init")
         mk("init-after-other-compile", case_init_pair("b_init3", pad=3), fail="init")
         mk("init-after-other-compile-far", case_init_pair("b_init4", pad=300), fail="init")
         for v in ("again", "self", "back"):
